@@ -206,14 +206,12 @@ class MultimapResolver:
             max_overlap_len = max(overlap_len, max_overlap_len)
             overlap_index_list.append((overlap_len, assignment.genomic_region[0], i))
 
-        # select assignment with the best overlap with genic region and lowest region start (for reproducibility)
-        min_region_start = math.inf
-        best_assignment = -1
-        for info in overlap_index_list:
-            if info[0] == max_overlap_len and info[1] < min_region_start:
-                min_region_start = info[1]
-                best_assignment = info[2]
+        # select assignment with the best overlap with genic region and lowest region start (for reproducibility),
+        # remaining ties are resolved by the alignment itself, never by the order of the list
+        def sorting_key(info):
+            assignment = assignment_list[info[2]]
+            return -info[0], info[1], assignment.multimapper, assignment.chr_id, assignment.start, assignment.end
 
-        assert best_assignment != -1
+        best_assignment = min(overlap_index_list, key=sorting_key)[2]
         return MultimapResolver.filter_assignments(assignment_list, {best_assignment})
 
